@@ -444,7 +444,7 @@ References(nf) ==
 (* Spelling rewrites                                                       *)
 (***************************************************************************)
 AllRewrites == {"tr_obj", "tr_str", "tr_list", "tr_unlist", "always_on", "cond_guard", "act_list", "act_unlist", "act_obj",
-                "act_str", "delay_key", "initial_omit", "tgt_abs", "tgt_cid", "tgt_rel", "tgt_key", "tgt_path"}
+                "act_str", "delay_key", "initial_omit", "guard_kids", "tgt_abs", "tgt_cid", "tgt_rel", "tgt_key", "tgt_path"}
 
 RwAct1(a, rs) == IF IsS(a) /\ "act_obj" \in rs THEN Obj1("type", a)
                  ELSE IF IsO(a) /\ "act_str" \in rs /\ Len(a.ks) = 1 /\ Has(a, "type") THEN G(a, "type")
@@ -470,14 +470,28 @@ RwTarget(SL, tg, src, rs) ==
            good == SelectSeq(cands, LAMBDA cnd : ResolveT(SL, cnd, src) = id0) IN
        IF id0 = "" \/ Len(good) = 0 THEN tg ELSE good[1]
 
+\* composite guards: operands under `children` <-> under `params.guards`
+RECURSIVE RwGuard(_, _)
+RwGuard(g, rs) ==
+  IF "guard_kids" \notin rs \/ ~IsO(g) \/ ~IsS(G(g, "type")) \/ G(g, "type").s \notin Composite THEN g
+  ELSE LET kids == GuardKidsCfg(g)
+           kids2 == MkList([i \in 1..Len(kids.vs) |-> RwGuard(kids.vs[i], rs)]) IN
+       IF Truthy(G(g, "children")) /\ ~Has(g, "params")
+       THEN With(Without(g, "children"), "params", Obj1("guards", kids2))
+       ELSE IF ~Has(g, "children") /\ IsO(G(g, "params")) /\ Len(G(g, "params").ks) = 1 /\ Truthy(G(G(g, "params"), "guards"))
+       THEN With(Without(g, "params"), "children", kids2)
+       ELSE g
+
 RwT1(SL, x, src, rs) ==        \* one transition: "target" or {..}
   IF IsS(x) THEN LET t2 == RwTarget(SL, x, src, rs) IN IF "tr_obj" \in rs THEN Obj1("target", t2) ELSE t2
   ELSE LET a == IF Has(x, "target") THEN With(x, "target", RwTarget(SL, G(x, "target"), src, rs)) ELSE x
            b == IF Has(a, "actions") THEN With(a, "actions", RwActs(G(a, "actions"), rs)) ELSE a
+           b2 == IF Has(b, "guard") THEN With(b, "guard", RwGuard(G(b, "guard"), rs))
+                 ELSE IF Has(b, "cond") THEN With(b, "cond", RwGuard(G(b, "cond"), rs)) ELSE b
            c == IF "cond_guard" \in rs
-                THEN (IF Has(b, "guard") /\ ~Has(b, "cond") THEN Renamed(b, "guard", "cond")
-                      ELSE IF Has(b, "cond") /\ ~Has(b, "guard") THEN Renamed(b, "cond", "guard") ELSE b)
-                ELSE b
+                THEN (IF Has(b2, "guard") /\ ~Has(b2, "cond") THEN Renamed(b2, "guard", "cond")
+                      ELSE IF Has(b2, "cond") /\ ~Has(b2, "guard") THEN Renamed(b2, "cond", "guard") ELSE b2)
+                ELSE b2
        IN IF "tr_str" \in rs /\ Len(c.ks) = 1 /\ Has(c, "target") /\ IsS(G(c, "target")) THEN G(c, "target") ELSE c
 RwT(SL, v, src, rs) ==         \* a transition site
   IF IsZ(v) THEN v
